@@ -65,6 +65,10 @@ SHAPES = [
     ("callres:a", "lower(r.s).upper()", True), ("callres:b", "upper(r.c)()", True),
     ("callres:c", "str(r.s).strip()", True), ("callres:d", "r.c()()", True),
     ("callres:e", "net.ipaddress('1.2.3.4').val()", True),
+    # a call result in the MIDDLE of a call target whose outer names, joined, spell a whitelisted type path
+    ("callres:wl_join", "net.ipv4(r.c()).Subnet('10.0.0.0/8')", True), ("callres:wl_join2", "net(r.c.fire()).ipaddress('1.2.3.4')", True),
+    ("callres:wl_join3", "net.tcp(r.c).Port(80)", True), ("callres:wl_join4", "net(upper.__globals__).ipnetwork('10.0.0.0/8')", True),
+    ("callres:wl_join5", "net.ipv4(__import__('os').getpid()).Address('1.2.3.4')", True),
     # a method named like a whitelisted helper, with the helper's arity (a resolver that drops the receiver would
     # silently call the helper instead of refusing)
     ("callres:helper_named", "lower(r.s).upper(r.t)", True), ("const:helper_named", "'abc'.lower('X')", True),
